@@ -46,20 +46,16 @@ theorem c02_texture (inflate : Inflate) (texHeader : Bytes) (mips : List (List B
       some (some (texHeader ++ contents mips.flatten)) :=
   readFromOffset_texture inflate texHeader mips hwf hd pre suf hsz
 
-/-- A model entry yields the 0x44-byte model file header followed by the stack, runtime and the
-vertex / index sections of LOD 0, 1, 2 in that order.
-
-`_partial`: `ModelSections` has no edge-geometry block runs.  Full statement (kept visible): the
-same with three more runs `e0 e1 e2` between `v_i` and `i_i`, listed in the block-size table.  The
-code skips those runs *without advancing its block-size index* (`// TODO: process edges`), so
-entries with edge-geometry blocks are outside what it can reassemble; retail files carry none. -/
-theorem c02_model_partial (inflate : Inflate) (m : ModelMeta) (s : ModelSections)
+/-- A model entry yields the 0x44-byte model file header followed by the stack, the runtime and,
+for LOD 0, 1, 2 in turn, the vertex, edge-geometry and index sections — for arbitrary block counts
+in each of the eleven runs (with fix C02-01; before it the edge-geometry runs were skipped without
+advancing the block-size index). -/
+theorem c02_model (inflate : Inflate) (m : ModelMeta) (s : ModelSections)
     (hwf : modelWf s = true) (hd : ∀ b ∈ s.all, Deflated inflate b) (pre suf : Bytes)
     (hsz : pre.length + (packModel m s).length < 18446744073709551616) :
     readFromOffset inflate (pre ++ packModel m s ++ suf) pre.length =
       some (some (encodeMdlHeader (mdlHeaderOf m s) ++
-        (contents s.stack ++ contents s.runtime ++ contents s.v0 ++ contents s.i0 ++
-         contents s.v1 ++ contents s.i1 ++ contents s.v2 ++ contents s.i2))) := by
+        (contents s.stack ++ contents s.runtime ++ contents s.v0 ++ contents s.e0 ++ contents s.i0 ++ contents s.v1 ++ contents s.e1 ++ contents s.i1 ++ contents s.v2 ++ contents s.e2 ++ contents s.i2))) := by
   rw [readFromOffset_model inflate m s hwf hd pre suf hsz]
   simp only [unpackedModel, ModelSections.all, contents_append]
 
@@ -82,7 +78,7 @@ theorem c02_model_header_describes (m : ModelMeta) (s : ModelSections) :
     (s.v1 = [] → h.vertexBufferSize.2.1 = 0) ∧ (s.i1 = [] → h.indexBufferSize.2.1 = 0) ∧
     (s.v2 = [] → h.vertexBufferSize.2.2 = 0) ∧ (s.i2 = [] → h.indexBufferSize.2.2 = 0) := by
   intro h out
-  obtain ⟨st, rt, v0, i0, v1, i1, v2, i2⟩ := s
+  obtain ⟨st, rt, v0, e0, i0, v1, e1, i1, v2, e2, i2⟩ := s
   have hH := encodeMdlHeader_length h
   have key : ∀ (x y z : Bytes) (off len : Nat), out = x ++ y ++ z → off = x.length → len = y.length →
       slice out off len = y := by
@@ -91,54 +87,45 @@ theorem c02_model_header_describes (m : ModelMeta) (s : ModelSections) :
     intro sec p hne; cases sec with
     | nil => exact absurd rfl hne
     | cons b bs => rfl
-  have hout : out = encodeMdlHeader h ++ (contents st ++ contents rt ++ contents v0 ++ contents i0 ++
-      contents v1 ++ contents i1 ++ contents v2 ++ contents i2) := by
+  have hout : out = encodeMdlHeader h ++ (contents st ++ contents rt ++ contents v0 ++ contents e0 ++ contents i0 ++ contents v1 ++ contents e1 ++ contents i1 ++ contents v2 ++ contents e2 ++ contents i2) := by
     simp only [out, h, unpackedModel, ModelSections.all, contents_append]
   refine ⟨?_, ?_, ?_, ?_, ?_, ?_, ?_, ?_, ?_, ?_, ?_, ?_, ?_, ?_, ?_⟩
   · simp only [hout, List.length_append, hH, ModelSections.all, contents_append]
-  · apply key (encodeMdlHeader h) (contents st) (contents rt ++ contents v0 ++ contents i0 ++
-      contents v1 ++ contents i1 ++ contents v2 ++ contents i2)
+  · apply key (encodeMdlHeader h) (contents st) (contents rt ++ contents v0 ++ contents e0 ++ contents i0 ++ contents v1 ++ contents e1 ++ contents i1 ++ contents v2 ++ contents e2 ++ contents i2)
     · simp only [hout, List.append_assoc]
     · exact hH.symm
     · rfl
-  · apply key (encodeMdlHeader h ++ contents st) (contents rt) (contents v0 ++ contents i0 ++
-      contents v1 ++ contents i1 ++ contents v2 ++ contents i2)
+  · apply key (encodeMdlHeader h ++ contents st) (contents rt) (contents v0 ++ contents e0 ++ contents i0 ++ contents v1 ++ contents e1 ++ contents i1 ++ contents v2 ++ contents e2 ++ contents i2)
     · simp only [hout, List.append_assoc]
     · simp only [List.length_append, hH]; rfl
     · rfl
   · intro hne
-    apply key (encodeMdlHeader h ++ contents st ++ contents rt) (contents v0) (contents i0 ++
-      contents v1 ++ contents i1 ++ contents v2 ++ contents i2)
-    · simp only [hout, List.append_assoc]
+    apply key (encodeMdlHeader h ++ contents st ++ contents rt) (contents v0) (contents e0 ++ contents i0 ++ contents v1 ++ contents e1 ++ contents i1 ++ contents v2 ++ contents e2 ++ contents i2)
+    · simp only [hout, List.append_assoc, List.append_nil]
     · simp only [h, mdlHeaderOf, hsec v0 _ hne, List.length_append, encodeMdlHeader_length, conLen]
     · rfl
   · intro hne
-    apply key (encodeMdlHeader h ++ contents st ++ contents rt ++ contents v0) (contents i0) (
-      contents v1 ++ contents i1 ++ contents v2 ++ contents i2)
-    · simp only [hout, List.append_assoc]
+    apply key (encodeMdlHeader h ++ contents st ++ contents rt ++ contents v0 ++ contents e0) (contents i0) (contents v1 ++ contents e1 ++ contents i1 ++ contents v2 ++ contents e2 ++ contents i2)
+    · simp only [hout, List.append_assoc, List.append_nil]
     · simp only [h, mdlHeaderOf, hsec i0 _ hne, List.length_append, encodeMdlHeader_length, conLen]
     · rfl
   · intro hne
-    apply key (encodeMdlHeader h ++ contents st ++ contents rt ++ contents v0 ++ contents i0) (contents v1)
-      (contents i1 ++ contents v2 ++ contents i2)
-    · simp only [hout, List.append_assoc]
+    apply key (encodeMdlHeader h ++ contents st ++ contents rt ++ contents v0 ++ contents e0 ++ contents i0) (contents v1) (contents e1 ++ contents i1 ++ contents v2 ++ contents e2 ++ contents i2)
+    · simp only [hout, List.append_assoc, List.append_nil]
     · simp only [h, mdlHeaderOf, hsec v1 _ hne, List.length_append, encodeMdlHeader_length, conLen]
     · rfl
   · intro hne
-    apply key (encodeMdlHeader h ++ contents st ++ contents rt ++ contents v0 ++ contents i0 ++ contents v1)
-      (contents i1) (contents v2 ++ contents i2)
-    · simp only [hout, List.append_assoc]
+    apply key (encodeMdlHeader h ++ contents st ++ contents rt ++ contents v0 ++ contents e0 ++ contents i0 ++ contents v1 ++ contents e1) (contents i1) (contents v2 ++ contents e2 ++ contents i2)
+    · simp only [hout, List.append_assoc, List.append_nil]
     · simp only [h, mdlHeaderOf, hsec i1 _ hne, List.length_append, encodeMdlHeader_length, conLen]
     · rfl
   · intro hne
-    apply key (encodeMdlHeader h ++ contents st ++ contents rt ++ contents v0 ++ contents i0 ++ contents v1 ++
-      contents i1) (contents v2) (contents i2)
-    · simp only [hout, List.append_assoc]
+    apply key (encodeMdlHeader h ++ contents st ++ contents rt ++ contents v0 ++ contents e0 ++ contents i0 ++ contents v1 ++ contents e1 ++ contents i1) (contents v2) (contents e2 ++ contents i2)
+    · simp only [hout, List.append_assoc, List.append_nil]
     · simp only [h, mdlHeaderOf, hsec v2 _ hne, List.length_append, encodeMdlHeader_length, conLen]
     · rfl
   · intro hne
-    apply key (encodeMdlHeader h ++ contents st ++ contents rt ++ contents v0 ++ contents i0 ++ contents v1 ++
-      contents i1 ++ contents v2) (contents i2) []
+    apply key (encodeMdlHeader h ++ contents st ++ contents rt ++ contents v0 ++ contents e0 ++ contents i0 ++ contents v1 ++ contents e1 ++ contents i1 ++ contents v2 ++ contents e2) (contents i2) ([])
     · simp only [hout, List.append_assoc, List.append_nil]
     · simp only [h, mdlHeaderOf, hsec i2 _ hne, List.length_append, encodeMdlHeader_length, conLen]
     · rfl
@@ -185,7 +172,7 @@ example : ∀ b ∈ [b1, b2], Deflated storedInflate b := by
   · cases hc
   · cases hc; decide
 example : textureWf [9, 9, 9, 9] [[b1], [b2, b1], []] = true := by decide +kernel
-example : modelWf ⟨[b1], [b2], [b1, b2], [], [], [b2], [], []⟩ = true := by decide +kernel
+example : modelWf ⟨[b1], [b2], [b1, b2], [b1], [], [], [], [b2], [], [b2, b2], []⟩ = true := by decide +kernel
 /-- the model evaluated on a concrete packed file (a test, labelled as such): two blocks behind a
 128-byte prefix -/
 example : readFromOffset storedInflate (List.replicate 128 7 ++ packStandard [b1, b2] ++ [5, 5]) 128 =
